@@ -248,6 +248,21 @@ func buildExpr(t []string) (carapace.Action, []string) {
 		return carapace.ActionCallback(func(c carapace.Context) carapace.Action {
 			return carapace.ActionValues("E" + c.Getenv(k))
 		}), t[1:]
+	case "J": // schedule jitter inside a member; the completion is the wrapped action's
+		a := sub()
+		return carapace.ActionCallback(func(c carapace.Context) carapace.Action {
+			jitter()
+			return a
+		}), t
+	case "BS": // the SAME Action value as every member of a Batch
+		n := atoi(t[0])
+		t = t[1:]
+		a := sub()
+		as := make([]carapace.Action, n)
+		for i := range as {
+			as[i] = a
+		}
+		return carapace.Batch(as...).ToA(), t
 	case "REF":
 		i := atoi(t[0])
 		return curPool[i], t[1:]
